@@ -1,5 +1,6 @@
 // C13 function level: the truncation sites, with panics caught and reported.
 //   event <hex msg>      -> ok | panic:<hex>
+//   eventburst <n> <hex msg> -> ok | panic:<hex>   (n events in a tight loop: the queue overflows)
 //   flush                -> <hex message>,<hex message>,... (messages of the events written to disk since the last flush)
 //   status <hex msg>     -> <hex reported message> | panic:<hex>
 //   xmlesc <hex text|-> -> <hex escaped>|panic:<hex>
@@ -33,6 +34,36 @@ pub fn run() {
                         Ok(()) => "ok".into(),
                         Err(e) => format!("panic:{}", hex(e.as_bytes())),
                     }
+                }
+                ["eventburst", n, m] => {
+                    // more events than the queue holds, written faster than it is drained: the writer's "queue is full" path runs
+                    // with this message too
+                    let msg = unhex_str(m);
+                    let n: usize = n.parse().unwrap();
+                    let mut first: Option<String> = None;
+                    for _ in 0..n {
+                        let mm = msg.clone();
+                        if let Err(e) = guarded(move || event_logger::write_event(LoggerLevel::Info, mm, "verif", "verif", "none")) {
+                            first = Some(e);
+                            break;
+                        }
+                    }
+                    match first {
+                        None => "ok".into(),
+                        Some(e) => format!("panic:{}", hex(e.as_bytes())),
+                    }
+                }
+                ["evdrain"] => {
+                    // forget what is queued / written so far (after a burst)
+                    tokio::time::sleep(std::time::Duration::from_millis(150)).await;
+                    let mut n = 0;
+                    if let Ok(files) = proxy_agent_shared::misc_helpers::get_files(&dir) {
+                        for f in files {
+                            let _ = std::fs::remove_file(&f);
+                            n += 1;
+                        }
+                    }
+                    n.to_string()
                 }
                 ["flush", rest @ ..] => {
                     // collect the event files until the expected number of events has been seen (they may be spread over several
